@@ -20,7 +20,9 @@ def sample_module(variant):
     f0 = m.func([W.I32], [W.I32], body0, export="run")
     body1 = W.ins("block", W.I64) + W.ins("i64.const", -5, pad=(pad * 2 if pad else 0)) + W.ins("local.get", 0, pad=pad) + W.ins("br_if", 0, pad=pad) + W.ins("drop") + \
         W.ins("i64.const", 9, pad=(pad * 2 if pad else 0)) + W.ins("end") + W.ins("local.set", 1, pad=pad) + W.ins("local.get", 1, pad=pad)
-    m.func([W.I32], [W.I64], body1, locals_=[(1, W.I64)], export="sel")
+    m.func([W.I32], [W.I64], body1, locals_=([(0, W.F32), (1, W.I64), (0, W.I32)] if variant.get("emptygroup") else [(1, W.I64)]), export="sel")
+    t1 = m.type([W.I32], [W.I32])
+    m.func([W.I32], [W.I32], W.ins("local.get", 0, pad=pad) + W.ins("i32.const", 1, pad=pad) + W.ins("call_indirect", t1, 0, pad=pad), export="ind")
     m.elem(W.ins("i32.const", 0, pad=pad), [f0, f0])
     m.data(W.ins("i32.const", 8, pad=pad), b"hello", flag=variant.get("dataflag", 0))
     m.data(W.ins("i32.const", 10, pad=pad), b"XY", flag=0)
@@ -36,15 +38,18 @@ def reencoding(ctx, job):
     d0, r0 = ctx.translate(base, "m", ())
     if d0 is None:
         raise Undecided("w2c2 rejected the base module")
-    ref = {f: open(os.path.join(d0, f), "rb").read() for f in ("m.c", "m.h")}
-    variants = [("sizepad5", dict(sizepad=5)), ("countpad5", dict(countpad=5)), ("immediates_padded", dict(pad=5)), ("dataflag2", dict(dataflag=2)),
+    # "the same SET of C definitions": the order of function definitions in the file follows the byte size of the bodies (work distribution),
+    # which an equivalent but longer encoding legitimately changes - so files are compared as sorted lists of blank-line separated definitions
+    defs = lambda b: sorted(x for x in b.split(b"\n\n") if x.strip())
+    ref = {f: defs(open(os.path.join(d0, f), "rb").read()) for f in ("m.c", "m.h")}
+    variants = [("sizepad5", dict(sizepad=5)), ("countpad5", dict(countpad=5)), ("immediates_padded", dict(pad=5)), ("dataflag2", dict(dataflag=2)), ("empty_local_groups", dict(emptygroup=1)),
                 ("custom_everywhere", dict(customs=[1, 2, 3, 4, 5, 6, 7, 9, 10, 11, "end"])),
                 ("custom_padded_size", dict(customs=[3, 10, "end"], sizepad=3)),
                 ("custom_long_name", dict(customs=[5], cname="n" * 130, cpayload=b"")),
                 ("custom_empty_name", dict(customs=[7, "end"], cname="", cpayload=b"\x00\xff")),
-                ("all", dict(sizepad=4, countpad=3, pad=5, dataflag=2, customs=[1, 6, 11, "end"]))]
+                ("all", dict(sizepad=4, countpad=3, pad=5, dataflag=2, emptygroup=1, customs=[1, 6, 11, "end"]))]
     for i in range(4 if ctx.tier == "quick" else 40):
-        variants.append(("random%d" % i, dict(sizepad=rnd.choice([0, 2, 5]), countpad=rnd.choice([0, 2, 5]), pad=rnd.choice([0, 5]), dataflag=rnd.choice([0, 2]),
+        variants.append(("random%d" % i, dict(sizepad=rnd.choice([0, 2, 5]), countpad=rnd.choice([0, 2, 5]), pad=rnd.choice([0, 5]), dataflag=rnd.choice([0, 2]), emptygroup=rnd.choice([0, 1]),
                                               customs=rnd.sample([1, 2, 3, 4, 5, 6, 7, 9, 10, 11, "end"], rnd.randint(0, 4)),
                                               cname="c" * rnd.randint(0, 9), cpayload=bytes(rnd.getrandbits(8) for _ in range(rnd.randint(0, 9))))))
     facts = []
@@ -60,8 +65,8 @@ def reencoding(ctx, job):
         wp = os.path.join(dd, "m.wasm")
         open(wp, "wb").write(enc)
         r = subprocess.run([ctx.w2c2(), wp, os.path.join(dd, "m.c")], capture_output=True, cwd=dd, timeout=60)
-        ok = r.returncode == 0 and all(os.path.exists(os.path.join(dd, f)) and open(os.path.join(dd, f), "rb").read() == ref[f] for f in ("m.c", "m.h"))
-        facts.append(("re-encoding '%s' (%s) is accepted and translates to byte-identical m.c / m.h" % (name, ", ".join("%s=%s" % (k, (x if not isinstance(x, (bytes, str)) or len(x) < 12 else "...")) for k, x in v.items())),
+        ok = r.returncode == 0 and all(os.path.exists(os.path.join(dd, f)) and defs(open(os.path.join(dd, f), "rb").read()) == ref[f] for f in ("m.c", "m.h"))
+        facts.append(("re-encoding '%s' (%s) is accepted and translates to the same set of byte-identical C definitions in m.c / m.h" % (name, ", ".join("%s=%s" % (k, (x if not isinstance(x, (bytes, str)) or len(x) < 12 else "...")) for k, x in v.items())),
                       ok, "rc=%s %s module_hex=%s" % (r.returncode, r.stderr.decode(errors="replace")[-200:], enc.hex()[:600])))
     return facts
 
@@ -85,6 +90,15 @@ def make_jobs(ctx):
     jobs.append(ejob(ctx, "RD.custom_section", "c08_reader.c", "h_custom", ["reader.c:wasmReadCustomSection", "reader.c:wasmReadName"],
                      flags=["--unwind", "50", "--unwinding-assertions", "--unwindset", "memcmp.0:400"] + NOUB,
                      bounded="custom section name <= 6 bytes, content <= 6 bytes, name-length LEB padded 1..5"))
+    for h, fns in (("local", ["wasmLocalInstructionRead"]), ("global", ["wasmGlobalInstructionRead"]), ("call", ["wasmCallInstructionRead"]), ("branch", ["wasmBranchInstructionRead"]),
+                   ("memory", ["wasmMemoryInstructionRead"]), ("memarg", ["wasmMemoryArgumentInstructionRead"]), ("call_indirect", ["wasmCallIndirectInstructionRead"]),
+                   ("memory_copy", ["wasmMemoryCopyInstructionRead"]), ("memory_init", ["wasmMemoryInitInstructionRead"]), ("br_table", ["wasmBranchTableInstructionRead"]),
+                   ("const_i32", ["wasmConstInstructionRead", "leb128ReadI32"]), ("const_i64", ["wasmConstInstructionRead", "leb128ReadI64"])):
+        jobs.append(Job("RD.instr." + h, os.path.join(H, "c08_instr.c"), entry="h_" + h, includes=inc, funcs=["instruction.c:" + f if f.startswith("wasm") else "leb128.h:" + f for f in fns],
+                        flags=["--unwind", "12", "--unwinding-assertions"] + NOUB, replay=rp,
+                        info=dict(layer="RD", note="every field padded to a symbolic length 1..5 (1..10 for i64), symbolic value; one trailing byte must remain")))
+    from ..eexpr import expr_jobs
+    jobs += expr_jobs(ctx, ["local_get", "local_get_invalid"])
     j = Job("B.reencoding", src=None, solver="static", funcs=["w2c2 binary: reader.c + c.c end to end"],
             bounded="one module, %d spec-equivalent encodings (padding of sizes/counts/immediates, custom sections at every boundary, flag 0 vs flag 2)" % (13 if ctx.tier == "quick" else 49),
             info=dict(layer="bounded corroboration on the real binary (not the deciding step)"))
